@@ -37,6 +37,10 @@ func colorStringMarshal(str jsonString, commonSequence []any, colorCode string) 
 	return b.String()
 }
 
+// maxCharDiffCells bounds the size of the table built for a character
+// level diff of two strings.
+const maxCharDiffCells = 1 << 22
+
 func (d DiffElement) Render(opts ...Option) string {
 	isColor := checkOption[colorOption](opts)
 	isMerge := checkOption[mergeOption](opts) || d.Metadata.Merge
@@ -47,13 +51,14 @@ func (d DiffElement) Render(opts ...Option) string {
 	b.WriteString("\n")
 
 	// Check if this is a single string diff. If so, compute the common sequence for a character
-	// level diff.
+	// level diff. Only colored output uses it, and the table it needs grows with the product of
+	// the two lengths, so long strings are colored as a whole like any other value.
 	var commonSequence []any
 	isSingleStringDiff := false
-	if len(d.Remove) == 1 && len(d.Add) == 1 {
+	if isColor && len(d.Remove) == 1 && len(d.Add) == 1 {
 		oldStr, oldOk := d.Remove[0].(jsonString)
 		newStr, newOk := d.Add[0].(jsonString)
-		if oldOk && newOk {
+		if oldOk && newOk && len(oldStr)*len(newStr) <= maxCharDiffCells {
 			oldAny := []any{}
 			for _, c := range oldStr {
 				oldAny = append(oldAny, c)
